@@ -165,6 +165,33 @@ def gnb_jobs(ctx, spec, cfg, cap=3, m=2, timeout=600, mem_mb=8000, tagx=''):
     return jobs, g
 
 
+def g2_jobs(ctx, spec, cfg, cap=3, m=2, nops=1, timeout=600, mem_mb=8000, tagx='', extra_options=()):
+    """yyinput()/yyunput() unit obligations from an arbitrary in-action buffer state (+ witness twin)."""
+    wd, g = _prep(ctx, spec, cfg, 'g2' + tagx, extra_options=ALLOC_OPTS + ['never-interactive'] + list(extra_options))
+    jobs = []
+    if not g.ok:
+        return jobs, g
+    for name in ('yy_get_next_buffer', 'yy_buffer_stack', 'yy_c_buf_p', 'yy_n_chars', 'yy_hold_char', 'yyunput_r', 'yyinput'):
+        if not H.has_name(g, name):
+            ctx.record('g2_%s_%s' % (spec.name, cfg.name), 'skipped', reason='internal name %s absent' % name)
+            return jobs, g
+    for w in (False, True):
+        src = os.path.join(wd, 'g2_c%d_m%d_o%d%s.c' % (cap, m, nops, '_w' if w else ''))
+        with open(src, 'w') as fh:
+            fh.write(H.g2_harness(g, cfg, spec, cap, m, nops=nops, witness=w))
+        b = scanner_bounds(g, cap + m, 0)
+        b.update({'move': cap + m + 2, 'grow': 4, 'shiftup': cap + m + 4, 'fn:yyinput': nops + 2})
+        j = cbmc.Job('g2_%s_%s_c%d_m%d_o%d%s' % (spec.name, cfg.name, cap, m, nops, '_w' if w else ''), wd, [src], b,
+                     includes=[wd, H.HDIR], harness_bound=None, timeout=timeout, mem_mb=mem_mb, gen_file=g.cpath,
+                     expect='witness' if w else 'proved',
+                     meta=dict(engine='G2', entry=spec.name, config=cfg.name,
+                               bound='capacity<=%d, any fill/token/status, <=%d source bytes in any chunks, %d solver-chosen edit(s) yyinput()/yyunput(c)' % (cap, m, nops),
+                               flex_input=g.ltext, flex_args=g.args))
+        jobs.append(j)
+    ctx.functions.update(['yyinput', 'yyunput_r', 'yy_get_next_buffer', 'yyrestart'])
+    return jobs, g
+
+
 def e3w_jobs(ctx, spec, cfg, bs, m, maxnul=1, witness=True, timeout=900, mem_mb=12000, tagx='',
              extra_options=(), interactive_check=False):
     """Inductive refill step jobs (white box)."""
